@@ -18,6 +18,10 @@ pub const HISTORIES: &[&str] = &[
     "merge_many_singletons_left_to_right",
     "two_treaps_in_lock_step_then_concatenate",
     "seeded_random_mix",
+    "pieces_built_from_empty_by_insert_then_concatenated",
+    "pieces_built_from_singletons_then_concatenated",
+    "sliding_window_push_back_pop_front",
+    "build_then_random_remove_and_reinsert",
 ];
 
 pub const STRIDES: &[&str] = &["none", "stride", "bursts", "lock_step_second_treap"];
@@ -353,6 +357,72 @@ pub fn run_history(history: usize, n: usize, mode: usize, stride: usize, seed: u
             checkpoint!(other, true);
             t = Treap::merge(std::mem::replace(&mut t, Treap::new()), std::mem::replace(&mut other, Treap::new()));
         }
+        10 | 11 => {
+            // many small treaps, each built separately from an EMPTY treap, concatenated left to
+            // right: anything that ties a treap's priorities to "how it was started" (a generator
+            // restarted per treap, per-treap seeds) shows up as a periodic priority sequence here
+            let piece = [8usize, 50, 64, 200][(seed % 4) as usize];
+            let mut key = 0u32;
+            while (key as usize) < n && violation.is_none() {
+                let mut p: Treap<Plain> = Treap::new();
+                for _ in 0..piece.min(n - key as usize) {
+                    if history == 10 {
+                        let len = p.size();
+                        f.before_own_draw();
+                        p.insert_at(len, Plain::new(key));
+                    } else {
+                        f.before_own_draw();
+                        let single = Treap::from_item(Plain::new(key));
+                        p = Treap::merge(std::mem::replace(&mut p, Treap::new()), single);
+                    }
+                    key += 1;
+                    inserted += 1;
+                }
+                last_pos = t.size();
+                t = Treap::merge(std::mem::replace(&mut t, Treap::new()), p);
+                checkpoint!(t, false);
+            }
+        }
+        12 => {
+            // sliding window: push back, and once the window is full pop the front
+            let w = (n / 4).max(8);
+            for i in 0..n {
+                { last_pos = t.size(); ins(&mut t, last_pos, i as u32, &mut f); }
+                inserted += 1;
+                if t.size() > w {
+                    let removed = t.remove_at(0);
+                    std::hint::black_box(removed.key);
+                    inserted -= 1;
+                }
+                checkpoint!(t, false);
+                if violation.is_some() {
+                    break;
+                }
+            }
+        }
+        13 => {
+            let m = (n / 2).max(8);
+            for i in 0..m {
+                let k = rng.usize_below(t.size() + 1);
+                { last_pos = k; ins(&mut t, last_pos, i as u32, &mut f); }
+                inserted += 1;
+                checkpoint!(t, false);
+                if violation.is_some() {
+                    break;
+                }
+            }
+            for i in 0..m {
+                if violation.is_some() {
+                    break;
+                }
+                let k = rng.usize_below(t.size());
+                let removed = t.remove_at(k);
+                std::hint::black_box(removed.key);
+                let k2 = rng.usize_below(t.size() + 1);
+                { last_pos = k2; ins(&mut t, last_pos, (m + i) as u32, &mut f); }
+                checkpoint!(t, false);
+            }
+        }
         _ => {
             for i in 0..n {
                 let len = t.size();
@@ -402,7 +472,7 @@ pub fn run_history(history: usize, n: usize, mode: usize, stride: usize, seed: u
         let _ = key_sum;
         functional_ok = key_count == inserted && t.size() == inserted;
         let exact: Option<Vec<u32>> = match history {
-            0 | 5 | 6 | 7 | 8 => Some((0..keys.len() as u32).collect()),
+            0 | 5 | 6 | 7 | 8 | 10 | 11 => Some((0..keys.len() as u32).collect()),
             1 => Some((0..keys.len() as u32).rev().collect()),
             _ => None,
         };
